@@ -2,4 +2,4 @@
 # try6.sh <Cxx>: import the sixteenth-batch seed of Cxx, confirm it, run the property's own check against it
 id=$1
 /verif/tools/import_seed16.sh $id 2>&1 | grep -v "^ok\|^PASS" | tail -2
-/verif/tools/tryseed.sh $id-p $id 2>&1 | grep -v "^\[.*\] *$"
+${VERIF_ROOT:-/verif}/tools/tryseed.sh $id-p $id 2>&1 | grep -v "^\[.*\] *$"
